@@ -484,13 +484,14 @@ pub(crate) fn add_mapping_get3<W, R, T>(
     scope.add_func(
         "get",
         XFuncSpec::new(&[&mp, &k, &v], v.clone()).generic(params),
-        XStaticFunction::from_native(|args, ns, _tca, rt| {
+        XStaticFunction::from_native(|args, ns, tca, rt| {
             let a0 = xraise!(eval(&args[0], ns, &rt)?);
             let a1 = xraise!(eval(&args[1], ns, &rt)?);
             let mapping = to_native!(a0, XMapping<W, R, T>);
             let val = match xraise!(mapping.locate(&a1, ns, rt.clone())?).found() {
                 Some(f) => mapping.get(f).clone(),
-                None => xraise!(eval(&args[2], ns, &rt)?),
+                // the default is returned as is: evaluate it in tail position
+                None => return ns.eval(&args[2], rt, tca),
             };
             Ok(Ok(val).into())
         }),
